@@ -386,4 +386,81 @@ theorem readerTick_misaligned (g : Geom) (hg : geomOK g = true) (fr0 : Frame) (r
     simp [hq, hne, hfsq, hm0, hc0, hnd]
     omega
 
+/-- The reader loop on a stream that starts `k` words into a frame (what is left after a loss that a
+read boundary falls on), for every schedule of reads: nothing is delivered until 3 frames are visible;
+the first delivered buffer carries the data-drop flag and holds whole frames from the next frame
+boundary on; every later buffer is unflagged; together they are a prefix of the frames after the
+broken one, in order. -/
+theorem runReader_misaligned (g : Geom) (hg : geomOK g = true) (fr0 : Frame) (rem : List Frame)
+    (h0 : frameWF g fr0 = true) (hwf : ∀ fr ∈ rem, frameWF g fr = true)
+    (k : Nat) (hk0 : 0 < k) (hk : k < g.F) :
+    ∀ (ticks : List (Nat × Int)) (pending future : List Nat),
+    pending ++ future = encWords (fr0.drop k) ++ encFrames rem → pending.length < 3 * g.fs →
+    runReader g { pending := pending, future := future } false ticks = .ok [] ∨
+    ∃ (p : List Frame) (t : Int) (parts : List (List Frame)) (ts : List Int),
+      runReader g { pending := pending, future := future } false ticks =
+        .ok ({ dc := sliced g p, t := t, drop := true } :: cleanBufs g parts ts) ∧
+      p ≠ [] ∧ (p :: parts).flatten <+: rem := by
+  have hfs := fs_eq g
+  intro ticks
+  induction ticks with
+  | nil => intro _ _ _ _; left; simp [runReader]
+  | cons tk rest ih =>
+    obtain ⟨chunk, t⟩ := tk
+    intro pending future hS hp
+    obtain ⟨b, hb⟩ : ∃ b, b = pending ++ future.take chunk := ⟨_, rfl⟩
+    obtain ⟨L, hLdef⟩ : ∃ L, L = b.length := ⟨_, rfl⟩
+    have hLval : L = pending.length + min chunk future.length := by rw [hLdef, hb]; simp
+    have hbS : b = (encWords (fr0.drop k) ++ encFrames rem).take L := by
+      rw [← hS, hLval, hb, List.take_append]
+      congr 1
+      · rw [List.take_of_length_le (by omega)]
+      · simp [List.take_eq_take_iff]
+    have hLS : L ≤ (encWords (fr0.drop k) ++ encFrames rem).length := by
+      rw [← hS, hLval]; simp; omega
+    have hSsplit : b ++ future.drop chunk = encWords (fr0.drop k) ++ encFrames rem := by
+      rw [← hS, hb]; simp
+    by_cases hsmall : L < 3 * g.fs
+    · have htick : readerTick g b = .small := by
+        unfold readerTick; rw [← hLdef]; simp [hsmall]
+      have := ih b (future.drop chunk) hSsplit (hLdef ▸ hsmall)
+      simp only [runReader]
+      rw [← hb, htick]
+      exact this
+    · right
+      have ⟨htick, hm2, hm, hdc, hrest⟩ := readerTick_misaligned g hg fr0 rem h0 hwf k hk0 hk L hLS (by omega)
+      rw [← hbS] at htick
+      obtain ⟨m, hmdef⟩ : ∃ m, m = (L - g.fs) / g.fs := ⟨_, rfl⟩
+      simp only [← hmdef] at htick hm2 hm hdc hrest
+      have hlen : ∀ fr ∈ rem, fr.length = g.F := fun fr h => frameWF_length g fr (hwf fr h)
+      have hrel : 4 * (g.F - k) + m * g.fs ≤ L := by
+        have : m * g.fs ≤ L - g.fs := by rw [hmdef]; exact Nat.div_mul_le_self _ _
+        omega
+      have hrem' : b.drop (4 * (g.F - k) + m * g.fs) ++ future.drop chunk = encFrames (rem.drop m) := by
+        rw [← hrest, ← hSsplit, List.drop_append_of_le_length (hLdef ▸ hrel)]
+      have hp' : (b.drop (4 * (g.F - k) + m * g.fs)).length < 3 * g.fs := by
+        have hpos : 0 < g.fs := by have := geom_facts g hg; omega
+        have h1 : L - g.fs < (m + 1) * g.fs := by
+          rw [hmdef]
+          have := Nat.lt_div_mul_add (a := L - g.fs) hpos
+          rw [Nat.succ_mul]; omega
+        simp only [List.length_drop, ← hLdef]
+        rw [Nat.succ_mul] at h1
+        omega
+      obtain ⟨parts, ts, hrun, _, _, hpre, _⟩ :=
+        runReader_wf g hg rest (rem.drop m) (b.drop (4 * (g.F - k) + m * g.fs)) (future.drop chunk)
+          (fun fr h => hwf fr (List.mem_of_mem_drop h)) hrem' hp'
+      refine ⟨rem.take m, t, parts, ts, ?_, ?_, ?_⟩
+      · simp only [runReader]
+        rw [← hb, htick]
+        simp only []
+        rw [hrun, hdc]
+        simp
+      · intro h
+        have : (rem.take m).length = m := by simp [Nat.min_eq_left hm]
+        rw [h] at this; simp at this; omega
+      · rw [List.flatten_cons]
+        conv => rhs; rw [← List.take_append_drop m rem]
+        exact (List.prefix_append_right_inj _).mpr hpre
+
 end DastardV.C04
